@@ -1,3 +1,4 @@
 import Driver.Proto
 import Driver.CmdFilter
 import Driver.CmdCtl
+import Driver.CmdLog
